@@ -1,62 +1,170 @@
 (* C07 -- queue.Queue is a faithful double-ended queue across wrap-around and growth.
-   Only statements, each closed by [exact] of a lemma proved in Queue/QueueProofs.v.
+   Only statements, each closed by [exact] of a lemma proved in Queue/QueueProofs*.v.
 
    Reading guide.  Queue/QueueModel.v: the Go code statement by statement on {vs; head; n}
    (index arithmetic from Gen/QueueIdx.v), [step]/[run]/[exec] over histories; results are
-   Ok / Panic kind / BadOracle (there is no fuel, hence no fuel-exhaustion result at all).
-   Queue/QueueSpec.v: the reference -- a plain list -- [spec_step]/[spec_run]/[spec_exec], and
+   QOk / QPanic kind / BadOracle / RotateFuel.  The regrowth step calls the loop model of
+   slice.Rotate of the C17 slice (Slice/SliceUtilModel.rotate_impl: sliceCheck, gcd, cycle chasing),
+   whose fuel exhaustion would show as RotateFuel.  Every model function takes the int width as
+   its first argument: [idw] = unbounded integers, [wrap64] = Go's 64-bit int (every +, -, unary -
+   reduced to [-2^63, 2^63)); [run_init64] = [run_init wrap64] is what is replayed against the code.
+   Queue/QueueSpec.v: the reference -- a plain list -- [spec_step]/[spec_run]/[spec_exec];
    [oracles_ok cap cnt ops]: every Add/Push that finds the ring full carries an oracle c > cap
-   (append's contract), where (cap, cnt) evolve by [cap_next]. *)
+   (append's contract), where (cap, cnt) evolve by [cap_next]; [init_ok]: NewSize's argument is
+   >= 0 (for a negative one the constructor panics: C07_newsize_negative); [ops_small]: growth
+   capacities <= 2^62 = [cap_bound] and Peek offsets are ints. *)
 From Coq Require Import ZArith List Lia.
 Import ListNotations.
-From Mds Require Import Queue.QueueModel Queue.QueueSpec Queue.QueueProofs.
+From Mds Require Import Queue.QueueModel Queue.QueueSpec Queue.QueueProofs Queue.QueueProofsInt.
+From Mds Require Import Queue.QueueUnitModel Queue.QueueUnitProofs.
 Local Open Scope Z_scope.
 
 (* For every element type, every initial configuration (zero value, New, NewSize k with k >= 0),
    every history of Add, Push, Pop, PopLast, Clear, Len, IsEmpty, Front, Peek k (any k), Each
    (stopped after any number of calls), Slice, and every choice of growth capacities that respects
    append's contract: every output of the ring-buffer model -- return values, ok flags, and all
-   observations -- equals the output of the plain-list reference; in particular no step panics. *)
+   observations -- equals the output of the plain-list reference; in particular no step panics and
+   Rotate's loop never runs out of fuel.  Integers unbounded (see C07_history64 for Go's int). *)
 Theorem C07_history : forall (T : Type) (zero : T) (i : init) (ops : list (op T)),
   init_ok i -> oracles_ok T (init_cap i) 0 ops ->
-  run_init T zero i ops = map Ok (spec_run T zero [] ops).
+  run_init idw T zero i ops = map QOk (spec_run T zero [] ops).
 Proof. exact history. Qed.
 Print Assumptions C07_history.
 (* NewSize(3); Push wraps head below 0; Add fills to exactly full with head = 2; Push must rotate
-   and regrow (oracle 7); Add/PopLast/Pop around the new ring; Peek(-1), Peek(-5), Each, Slice. *)
+   (the real cycle-chasing loop: gcd(1,3) = 1 cycle of 3 stores) and regrow (oracle 7);
+   Add/PopLast/Pop around the new ring; Peek(-1), Peek(-5), Each, Slice. *)
 Example C07_history_ex :
   let ops := [OPush 1 0; OAdd 2 0; OAdd 3 0; OPush 4 7; OLen; OPeek (-1); OPeek (-5); OPopLast;
               OAdd 5 0; OPop; OFront; OEach 1; OSlice; OIsEmpty] in
   (init_ok (ISize 3) /\ oracles_ok Z (init_cap (ISize 3)) 0 ops) /\
-  run_init Z 0 (ISize 3) ops =
-    [Ok RUnit; Ok RUnit; Ok RUnit; Ok RUnit; Ok (RInt 4); Ok (RVal 3 true); Ok (RVal 0 false);
-     Ok (RVal 3 true); Ok RUnit; Ok (RVal 4 true); Ok (RElem 1); Ok (RList [1; 2]);
-     Ok (RList [1; 2; 5]); Ok (RBool false)] /\
-  exec_init Z 0 (ISize 3) (firstn 4 ops) = Ok {| vs := [1; 2; 3; 4; 0; 0; 4]; head := 6; n := 4 |}.
-Proof. cbv zeta. split; [split; [vm_compute; discriminate|cbn; lia]|]. split; vm_compute; reflexivity. Qed.
+  run_init idw Z 0 (ISize 3) ops =
+    [QOk RUnit; QOk RUnit; QOk RUnit; QOk RUnit; QOk (RInt 4); QOk (RVal 3 true); QOk (RVal 0 false);
+     QOk (RVal 3 true); QOk RUnit; QOk (RVal 4 true); QOk (RElem 1); QOk (RList [1; 2]);
+     QOk (RList [1; 2; 5]); QOk (RBool false)] /\
+  exec_init idw Z 0 (ISize 3) (firstn 3 ops) = QOk {| vs := [2; 3; 1]; head := 2; n := 3 |} /\
+  exec_init idw Z 0 (ISize 3) (firstn 4 ops) = QOk {| vs := [1; 2; 3; 4; 0; 0; 4]; head := 6; n := 4 |}.
+Proof. cbv zeta. split; [split; [vm_compute; discriminate|cbn; lia]|]. repeat split; vm_compute; reflexivity. Qed.
+
+(* The same at Go's int width: for every history in which the buffer never exceeds 2^62 slots
+   (initial size and growth capacities <= 2^62 -- true of every element type of non-zero size,
+   whose slices cannot exceed 2^48 elements) and Peek's argument is an int, the 64-bit model --
+   the one replayed against the real package -- produces the reference outputs.  Peek(math.MinInt)
+   is covered: [ops_small] allows every k in [-2^63, 2^63). *)
+Theorem C07_history64 : forall (T : Type) (zero : T) (i : init) (ops : list (op T)),
+  init_ok i -> init_cap i <= cap_bound -> ops_small T ops -> oracles_ok T (init_cap i) 0 ops ->
+  run_init64 T zero i ops = map QOk (spec_run T zero [] ops).
+Proof. exact history64. Qed.
+Print Assumptions C07_history64.
+Example C07_history64_ex :
+  let ops := [OAdd 1 1; OAdd 2 2; OAdd 3 4; OPop; OAdd 4 0; OAdd 5 0; OPush 6 9;
+              OPeek (-9223372036854775808); OPeek (-9223372036854775807); OPeek 9223372036854775807;
+              OPeek (-5); OPeek (-6); OSlice] in
+  (ops_small Z ops /\ oracles_ok Z 0 0 ops) /\
+  run_init64 Z 0 IZero ops =
+    [QOk RUnit; QOk RUnit; QOk RUnit; QOk (RVal 1 true); QOk RUnit; QOk RUnit; QOk RUnit;
+     QOk (RVal 0 false); QOk (RVal 0 false); QOk (RVal 0 false);
+     QOk (RVal 6 true); QOk (RVal 0 false); QOk (RList [6; 2; 3; 4; 5])].
+Proof.
+  cbv zeta. split; [split|vm_compute; reflexivity].
+  - unfold ops_small. repeat (apply Forall_cons; [cbn [op_small]; unfold cap_bound; try lia; exact I|]). apply Forall_nil.
+  - cbn; lia.
+Qed.
+
+(* Both widths agree on whole histories whatever the oracles are (valid or not), under the same bound. *)
+Theorem C07_width : forall (T : Type) (zero : T) (i : init) (ops : list (op T)),
+  init_ok i -> init_cap i <= cap_bound -> ops_small T ops ->
+  run_init wrap64 T zero i ops = run_init idw T zero i ops.
+Proof. exact history_width. Qed.
+Print Assumptions C07_width.
+Example C07_width_ex : cap_bound = 2 ^ 62 /\ wrap64 (9223372036854775807 + 1) = - 9223372036854775808 /\ wrap64 (-5) = -5.
+Proof. repeat split. Qed.
+
+(* Without the bound C07_history64 is FALSE -- a defect of queue.Add's `pos := q.head + q.n` for
+   zero-size element types: on a ring of N = 2^63-1 slots (queue.NewSize[struct{}](math.MaxInt)
+   succeeds), Push puts head at N-1, Add wraps correctly to slot 0, and the next Add computes
+   N-1+2 = 2^63 -> -2^63, which is not >= len, so the store panics; with unbounded integers (and
+   for the reference) all three succeed.  The real package panics exactly so (notes/C07-audit.md). *)
+Theorem C07_int64_refuted : forall (T : Type) (zero : T) (N : Z) (v : T),
+  N = 9223372036854775807 ->
+  run_init wrap64 T zero (ISize N) [OPush v 0; OAdd v 0; OAdd v 0] = [QOk RUnit; QOk RUnit; QPanic PIndex] /\
+  run_init idw T zero (ISize N) [OPush v 0; OAdd v 0; OAdd v 0] = [QOk RUnit; QOk RUnit; QOk RUnit].
+Proof. intros T zero N v H. exact (width_bound_needed T zero N H v). Qed.
+Print Assumptions C07_int64_refuted.
+(* the arithmetic of the witness, on the generated expressions *)
+Example C07_int64_refuted_ex :
+  let N := 9223372036854775807 in
+  init_ok (ISize N) /\
+  wrap64 (Gen.QueueIdx.add_pos (N - 1) 2) = - 9223372036854775808 /\
+  Gen.QueueIdx.add_wrap_cond (- 9223372036854775808) N = false.
+Proof. cbv zeta. split; [vm_compute; discriminate|split; reflexivity]. Qed.
+
+(* The zero-size element type.  Queue/QueueUnitModel.v is the model with every buffer replaced by
+   its length (all elements are tt); it is what replays queue.Queue[struct{}] histories, whose
+   buffers can be 2^63-1 slots long.  It is not a second, independent transcription to be trusted:
+   at every width, from every initial configuration, on every history, its outputs are the main
+   model's outputs on unit elements with the element values dropped. *)
+Theorem C07_unit_model : forall (w : Z -> Z) (i : init) (ops : list (op unit)),
+  map (rmap oshape) (run_init w unit tt i ops) = urun_init w i ops.
+Proof. exact unit_model_is_the_model. Qed.
+Print Assumptions C07_unit_model.
+(* F11 by computation: the witness of C07_int64_refuted on the length-only model, at both widths,
+   and (through C07_unit_model) on the main model for unit elements; one slot lower the third
+   operation is still fine and the fourth fails. *)
+Example C07_unit_model_ex :
+  let N := 9223372036854775807 in
+  urun_init wrap64 (ISize N) [OPush tt 0; OAdd tt 0; OAdd tt 0] = [QOk UUnit; QOk UUnit; QPanic PIndex] /\
+  urun_init idw (ISize N) [OPush tt 0; OAdd tt 0; OAdd tt 0; OLen] = [QOk UUnit; QOk UUnit; QOk UUnit; QOk (UInt 3)] /\
+  urun_init wrap64 (ISize (N - 1)) [OPush tt 0; OAdd tt 0; OAdd tt 0; OAdd tt 0] = [QOk UUnit; QOk UUnit; QOk UUnit; QPanic PIndex] /\
+  map (rmap oshape) (run_init wrap64 unit tt (ISize N) [OPush tt 0; OAdd tt 0; OAdd tt 0]) = [QOk UUnit; QOk UUnit; QPanic PIndex] /\
+  urun_init wrap64 (ISize 3) [OPush tt 0; OAdd tt 0; OAdd tt 0; OPush tt 4; OSlice; OPeek (-4); OPeek (-5)]
+    = [QOk UUnit; QOk UUnit; QOk UUnit; QOk UUnit; QOk (UList 4); QOk (UVal true); QOk (UVal false)].
+Proof.
+  cbv zeta. split; [vm_compute; reflexivity|]. split; [vm_compute; reflexivity|].
+  split; [vm_compute; reflexivity|]. split; [|vm_compute; reflexivity].
+  (* never evaluate the main model here: its buffer would be a list of 2^63-1 elements *)
+  rewrite C07_unit_model. vm_compute. reflexivity.
+Qed.
+
+(* NewSize(k) with k < 0 -- the documentation ("storage pre-allocated for n items") says nothing
+   about it: the constructor itself panics in make, at either width; no queue comes into being,
+   so there is no history to speak of.  Together with init_ok this covers every int argument. *)
+Theorem C07_newsize_negative : forall (T : Type) (zero : T) (w : Z -> Z) (k : Z) (ops : list (op T)),
+  k < 0 -> run_init w T zero (ISize k) ops = [QPanic PMakeLen].
+Proof. intros T zero w k ops. exact (newsize_negative T zero w k ops). Qed.
+Print Assumptions C07_newsize_negative.
+Example C07_newsize_negative_ex :
+  run_init64 Z 0 (ISize (-1)) [OAdd 1 1] = [QPanic PMakeLen] /\
+  run_init64 Z 0 (ISize (-9223372036854775808)) [] = [QPanic PMakeLen] /\
+  run_init64 Z 0 (ISize 0) [OAdd 1 1] = [QOk RUnit].
+Proof. repeat split; vm_compute; reflexivity. Qed.
 
 (* Whatever the oracle values are (valid or not): the outputs are a prefix of the reference's
    outputs, followed by a single BadOracle exactly when a growth step was handed a capacity that
    does not exceed the old length. *)
 Theorem C07_history_any_oracle : forall (T : Type) (zero : T) (i : init) (ops : list (op T)),
   init_ok i ->
-  exists k, run_init T zero i ops =
-    map Ok (firstn k (spec_run T zero [] ops)) ++ (if (k <? length ops)%nat then [BadOracle] else []).
+  exists k, run_init idw T zero i ops =
+    map QOk (firstn k (spec_run T zero [] ops)) ++ (if (k <? length ops)%nat then [BadOracle] else []).
 Proof. exact history_any_oracle. Qed.
 Print Assumptions C07_history_any_oracle.
 Example C07_history_any_oracle_ex :
-  run_init Z 0 IZero [OAdd 1 1; OAdd 2 1; OLen] = [Ok RUnit; BadOracle] /\
-  run_init Z 0 IZero [OAdd 1 1; OAdd 2 5; OLen] = [Ok RUnit; Ok RUnit; Ok (RInt 2)].
+  run_init idw Z 0 IZero [OAdd 1 1; OAdd 2 1; OLen] = [QOk RUnit; BadOracle] /\
+  run_init idw Z 0 IZero [OAdd 1 1; OAdd 2 5; OLen] = [QOk RUnit; QOk RUnit; QOk (RInt 2)].
 Proof. split; vm_compute; reflexivity. Qed.
 
-(* No panic (index, division by zero, Rotate offset, make) in any history, whatever the oracles. *)
+(* No panic (index, division by zero, Rotate offset, make) and no exhaustion of the fuel of
+   slice.Rotate's inner loop in any history, whatever the oracles. *)
 Theorem C07_no_panic : forall (T : Type) (zero : T) (i : init) (ops : list (op T)) (pk : panic_kind),
-  init_ok i -> ~ In (Panic pk) (run_init T zero i ops).
-Proof. exact no_panic. Qed.
+  init_ok i -> ~ In (QPanic pk) (run_init idw T zero i ops) /\ ~ In RotateFuel (run_init idw T zero i ops).
+Proof. intros T zero i ops pk H. split; [exact (no_panic T zero i ops pk H)|exact (no_fuel T zero i ops H)]. Qed.
 Print Assumptions C07_no_panic.
-(* the hypothesis is needed: NewSize(-1) panics in make *)
-Example C07_no_panic_ex : init_ok (ISize 2) /\ run_init Z 0 (ISize (-1)) [OLen] = [Panic PMakeLen].
-Proof. split; [vm_compute; discriminate|vm_compute; reflexivity]. Qed.
+(* the hypothesis is needed: NewSize(-1) panics in make; and the panics are real results of the
+   model: Rotate with an offset beyond the length, a store beyond the buffer *)
+Example C07_no_panic_ex :
+  init_ok (ISize 2) /\ run_init idw Z 0 (ISize (-1)) [OLen] = [QPanic PMakeLen] /\
+  rotate_go Z [1; 2; 3] 4 = QPanic PRotate /\ rotate_go Z [1; 2; 3; 4; 5; 6] (-4) = QOk [5; 6; 1; 2; 3; 4] /\
+  add idw Z 0 {| vs := [1; 2]; head := 3; n := 5 |} 9 0 = QPanic PRotate.
+Proof. split; [vm_compute; discriminate|repeat split; vm_compute; reflexivity]. Qed.
 
 (* In every state a history leads to: Each with an arbitrary stateful callback calls it on the
    reference sequence in order until it answers false, and Peek at every offset agrees with the
@@ -64,42 +172,43 @@ Proof. split; [vm_compute; discriminate|vm_compute; reflexivity]. Qed.
 Theorem C07_each_peek_any : forall (T : Type) (zero : T) (i : init) (ops : list (op T))
     (A : Type) (f : A -> T -> A * bool) (a : A),
   init_ok i -> oracles_ok T (init_cap i) 0 ops ->
-  exists q, exec_init T zero i ops = Ok q /\
-    each T A f q a = Ok (spec_each T f (spec_exec T zero [] ops) a) /\
-    (forall k, peek T zero q k = Ok (spec_peek T zero (spec_exec T zero [] ops) k)).
+  exists q, exec_init idw T zero i ops = QOk q /\
+    each idw T A f q a = QOk (spec_each T f (spec_exec T zero [] ops) a) /\
+    (forall k, peek idw T zero q k = QOk (spec_peek T zero (spec_exec T zero [] ops) k)).
 Proof. exact each_any_callback. Qed.
 Print Assumptions C07_each_peek_any.
 Example C07_each_peek_any_ex :
   spec_exec Z 0 [] [OAdd 1 1; OAdd 2 2; OPush 3 4; OPop] = [1; 2] /\
-  each Z Z (fun s x => (s + x, true)) {| vs := [1; 2; 0; 3]; head := 0; n := 2 |} 10 = Ok 13.
-Proof. split; vm_compute; reflexivity. Qed.
+  each idw Z Z (fun s x => (s + x, true)) {| vs := [1; 2; 0; 3]; head := 0; n := 2 |} 10 = QOk 13 /\
+  each idw Z Z (fun s x => (s + x, negb (x =? 7))) {| vs := [7; 8; 9]; head := 2; n := 3 |} 0 = QOk 16.
+Proof. repeat split; vm_compute; reflexivity. Qed.
 
 (* Peek(k) with k outside [-n, n) is (zero, false) -- in every state, even an ill-formed one. *)
 Theorem C07_peek_out_of_range : forall (T : Type) (zero : T) (q : queue T) (k : Z),
-  k < - n q \/ k >= n q -> peek T zero q k = Ok (zero, false).
+  k < - n q \/ k >= n q -> peek idw T zero q k = QOk (zero, false).
 Proof. exact peek_out_of_range. Qed.
 Print Assumptions C07_peek_out_of_range.
 Example C07_peek_out_of_range_ex :
-  peek Z 0 {| vs := [7; 8; 9]; head := 2; n := 2 |} (-3) = Ok (0, false) /\
-  peek Z 0 {| vs := [7; 8; 9]; head := 2; n := 2 |} (-2) = Ok (9, true).
+  peek idw Z 0 {| vs := [7; 8; 9]; head := 2; n := 2 |} (-3) = QOk (0, false) /\
+  peek idw Z 0 {| vs := [7; 8; 9]; head := 2; n := 2 |} (-2) = QOk (9, true).
 Proof. vm_compute. split; reflexivity. Qed.
 
 (* Every state a history leads to (whatever the oracles) satisfies the ring invariant that the
    hook values head/n/len(vs) are compared against; head is reset to 0 whenever the queue empties. *)
 Theorem C07_ring_invariant : forall (T : Type) (zero : T) (i : init) (ops : list (op T)) (q : queue T),
-  init_ok i -> exec_init T zero i ops = Ok q ->
+  init_ok i -> exec_init idw T zero i ops = QOk q ->
   0 <= n q <= zlen T (vs q) /\ 0 <= head q /\ (head q < zlen T (vs q) \/ head q = 0) /\ (n q = 0 -> head q = 0).
 Proof. exact reachable_inv. Qed.
 Print Assumptions C07_ring_invariant.
 Example C07_ring_invariant_ex :
-  exec_init Z 0 (ISize 2) [OPush 1 0; OPop] = Ok {| vs := [0; 1]; head := 0; n := 0 |}.
+  exec_init idw Z 0 (ISize 2) [OPush 1 0; OPop] = QOk {| vs := [0; 1]; head := 0; n := 0 |}.
 Proof. vm_compute. reflexivity. Qed.
 
 (* Observers do not change the state. *)
 Theorem C07_observers_pure : forall (T : Type) (zero : T) (q q' : queue T) (o : op T) (r : out T),
-  is_observer T o = true -> step T zero q o = Ok (q', r) -> q' = q.
+  is_observer T o = true -> step idw T zero q o = QOk (q', r) -> q' = q.
 Proof. intros T zero q q' o r. exact (observers_pure T zero q o q' r). Qed.
 Print Assumptions C07_observers_pure.
 Example C07_observers_pure_ex :
-  step Z 0 {| vs := [7; 8; 9]; head := 2; n := 2 |} OSlice = Ok ({| vs := [7; 8; 9]; head := 2; n := 2 |}, RList [9; 7]).
+  step idw Z 0 {| vs := [7; 8; 9]; head := 2; n := 2 |} OSlice = QOk ({| vs := [7; 8; 9]; head := 2; n := 2 |}, RList [9; 7]).
 Proof. vm_compute. reflexivity. Qed.
